@@ -112,6 +112,7 @@ func runCase(phase string, i int) worker.Result {
 	o.ManifestAsBlob = false
 	o.Foreign = rng.IntN(3) == 0
 	o.AbsentSubjects = rng.IntN(3) == 0
+	o.SHA512 = rng.IntN(3) == 0
 	g := gen.Generate(rng, o)
 	kinds := []string{"memory", "oci", "oci", "file"}
 	kind := kinds[rng.IntN(len(kinds))]
@@ -189,6 +190,10 @@ func runCase(phase string, i int) worker.Result {
 			return res
 		}
 		cleanup = func() { s.Close(); os.RemoveAll(dir) }
+		s.ForceCAS = rng.IntN(3) == 0
+		if s.ForceCAS {
+			res.Count("file_stores_with_ForceCAS", 1)
+		}
 		st = s
 	}
 	defer cleanup()
@@ -231,8 +236,25 @@ func runCase(phase string, i int) worker.Result {
 		return true
 	}
 
+	cancelPushes := phase != "race" && rng.IntN(4) == 0
 	push := func(id int) error {
 		nd := g.Nodes[id]
+		if cancelPushes && len(nd.Bytes) > 0 && id%3 == 0 {
+			// the caller's context ends while the last byte is being read: whatever the
+			// outcome, a manifest that is stored afterwards must show up as predecessor
+			cctx, cancel := context.WithCancel(ctx)
+			err := st.Push(cctx, nd.Desc, &cancelAtEnd{r: bytes.NewReader(nd.Bytes), left: len(nd.Bytes), cancel: cancel})
+			cancel()
+			res.Count("pushes_cancelled_at_last_byte", 1)
+			if err != nil && !errors.Is(err, errdef.ErrAlreadyExists) {
+				if ok, eerr := st.Exists(ctx, nd.Desc); eerr == nil && ok {
+					res.Count("cancelled_pushes_failed_but_stored", 1)
+					return nil // stored: judged like any stored node
+				}
+				return errNotStored
+			}
+			return nil
+		}
 		err := st.Push(ctx, nd.Desc, bytes.NewReader(nd.Bytes))
 		if err != nil && !errors.Is(err, errdef.ErrAlreadyExists) {
 			return err
@@ -342,6 +364,10 @@ func runCase(phase string, i int) worker.Result {
 	} else {
 		for n, id := range order {
 			if err := push(id); err != nil {
+				if err == errNotStored {
+					history = append(history, step{Op: "push-cancelled-not-stored", Node: id})
+					continue
+				}
 				res.Violate("push-failed", fmt.Sprintf("push node %d: %v", id, err), witness(g, kind, orderClass, history))
 				return res
 			}
@@ -513,6 +539,24 @@ func runCase(phase string, i int) worker.Result {
 		res.Sample = witness(g, kind, orderClass, history)
 	}
 	return res
+}
+
+var errNotStored = errors.New("cancelled push left nothing stored")
+
+// cancelAtEnd cancels a context while the last byte is handed out.
+type cancelAtEnd struct {
+	r      io.Reader
+	left   int
+	cancel context.CancelFunc
+}
+
+func (c *cancelAtEnd) Read(p []byte) (int, error) {
+	n, err := c.r.Read(p)
+	c.left -= n
+	if c.left <= 0 {
+		c.cancel()
+	}
+	return n, err
 }
 
 type roStore struct {
